@@ -8,7 +8,7 @@ from symv.dense import LayoutError, describe, embed, index_sig_nosub, is_fermion
 
 META = {
     "level": "exploration",
-    "level_text": "Every monitored qr (plain, stabilised, qr_stabilized), svd, eigh and solve call (module function and autoray dispatch) on generated abelian and fermionic matrices is judged structurally: reconstruction through the library's own contraction / diagonal multiplication equals the input (embedded comparison, tolerance 1e-9 x scale), Q/U blocks have orthonormal columns, V-dagger blocks orthonormal rows, R blocks upper triangular (non-negative real diagonal when stabilised), singular values real, non-negative, non-increasing inside each charge, bond index direction / charge set / sizes as promised, R and V-dagger of identity charge, factors pass the C01 audit; solve returns the right charge and index and satisfies a.x = b. Seeded random exploration (tall/wide/square/rank-deficient/missing blocks, fused inputs, complex, pending signs). Later additions: data rescaled by 1e-170 .. 1e160 with tolerances relative to the data, large (16-24) and exactly structured blocks, two-label even matrices with the labels of the reconstruction compared, matrices with identity histories, block-less right-hand sides, positional / keyword call forms.",
+    "level_text": "Every monitored qr (plain, stabilised, qr_stabilized), svd, eigh and solve call (module function and autoray dispatch) on generated abelian and fermionic matrices is judged structurally: reconstruction through the library's own contraction / diagonal multiplication equals the input (embedded comparison, tolerance 1e-9 x scale), Q/U blocks have orthonormal columns, V-dagger blocks orthonormal rows, R blocks upper triangular (non-negative real diagonal when stabilised), singular values real, non-negative, non-increasing inside each charge, bond index direction / charge set / sizes as promised, R and V-dagger of identity charge, factors pass the C01 audit; solve returns the right charge and index and satisfies a.x = b. Seeded random exploration (tall/wide/square/rank-deficient/missing blocks, fused inputs, complex, pending signs). Later additions: data rescaled by 1e-170 .. 1e160 with tolerances relative to the data, large (16-24) and exactly structured blocks, two-label even matrices with the labels of the reconstruction compared, matrices with identity histories, block-less right-hand sides, positional / keyword call forms. Round 9: integer-typed blocks (int64 / int32, bool for abelian Hermitian matrices), blocks with identically zero rows / columns, user-defined symmetries.",
     "technique": "runtime monitoring: structural post-condition oracle + reconstruction through the library's own contraction",
     "rule": (
         "one evaluation = one decomposition call judged by the structural list. Non-trivial = input has >=2 blocks of different shapes or a rank-deficient block; "
